@@ -231,11 +231,14 @@ def c11_4(ctx: Ctx) -> RuleResult:
     for q, members in (("ropt.results._function_results.FunctionResults", ("evaluations", "functions", "constraint_info")), ("ropt.results._gradient_results.GradientResults", ("evaluations", "gradients"))):
         c = ctx.repo.cls(q)
         m = c.methods.get("transform_from_optimizer")
-        txt = ast.unparse(m.node) if m else ""
+        # every member is back-transformed with the transforms this method received; realizations are kept
+        mcalls = [X.at(m, c_) for c_ in calls_in(m)] if m else []
+        tp = ("param", m.qualname, m.positional[1]) if m and len(m.positional) > 1 else None
         for mem in members:
-            ok = f"self.{mem}.transform_from_optimizer(transforms)" in txt
+            ok = any(t[0] == "call" and t[1][0] == "attr" and t[1][2] == "transform_from_optimizer" and ends_with_attrs(t[1][1], mem) and root_of(t[1][1])[0] == "param"
+                     and t[2] and t[2][0] == tp for t in mcalls)
             res.add(m, m.node if m else c.node, f"{c.name} back-transforms its `{mem}`", ok, "" if ok else f"`{mem}` is passed on untransformed", construct=f"{c.name}: delegates {mem}")
-        ok = "realizations=self.realizations" in txt
+        ok = any(t[0] == "call" and any(k == "realizations" and v[0] == "attr" and v[2] == "realizations" and v[1][0] == "param" for k, v in t[3]) for t in mcalls)
         res.add(m, m.node if m else c.node, f"{c.name} keeps `realizations` (domain independent)", ok, construct=f"{c.name}: realizations kept")
     if n_cls < 4:
         raise AnalysisError(f"expected four result field classes with transform_from_optimizer, found {n_cls}")
@@ -295,14 +298,23 @@ def c11_5(ctx: Ctx) -> RuleResult:
             "" if ok else "absolute magnitudes are not transformed with the variable scaling", construct="GradientConfig: absolute magnitudes")
     # the EnOptConfig validators pass the context on
     ec = ctx.repo.cls("ropt.config.enopt._enopt_config.EnOptConfig")
-    txt = ast.unparse(ec.node)
-    for frag, what in (("apply_transformation(self.variables, info.context)", "linear constraints"), ("fix_perturbations(self.variables, info.context)", "perturbations")):
-        ok = frag in txt
+    for meth, what in (("apply_transformation", "linear constraints"), ("fix_perturbations", "perturbations")):
+        ok = False
+        for m_ in ec.methods.values():
+            for c_ in calls_in(m_):
+                t = X.at(m_, c_)
+                if t[0] == "call" and t[1][0] == "attr" and t[1][2] == meth:
+                    args = list(t[2]) + [v for _k, v in t[3]]
+                    ok = ok or (any(ends_with_attrs(a, "variables") and root_of(a)[0] == "param" for a in args) and any(ends_with_attrs(a, "context") for a in args))
         res.add(None, ec.node, f"EnOptConfig passes the validation context to the {what}", ok, "" if ok else "context not forwarded", construct=f"EnOptConfig: context to {what}",
                 where=f"{ec.module.relpath}:{ec.node.lineno}", fname=ec.qualname)
     for run in step_run_methods(ctx):
-        txt = ast.unparse(run.node)
-        ok = "model_validate(config, context=transforms)" in txt
+        ok = False
+        for c_ in calls_in(run):
+            t = X.at(run, c_)
+            if t[0] == "call" and t[1][0] in ("attr", "global") and show(t[1]).endswith("model_validate"):
+                ctxv = dict(t[3]).get("context")
+                ok = ok or (ctxv is not None and any(a_[0] == "param" and a_[2] == "transforms" for a_ in (ctxv[1] if ctxv[0] == "phi" else (ctxv,))))
         res.add(run, run.node, "the step validates the configuration with the transforms as context", ok, "" if ok else "configuration is validated without the transforms", construct=f"{run.cls.name}: validation context")
     res.floor = 12
     return res
